@@ -4,7 +4,6 @@ package main
 
 import (
 	"context"
-	"encoding/json"
 	"fmt"
 	"strings"
 	"time"
@@ -300,7 +299,7 @@ func c17Run(r *vkit.Run) {
 
 func c17Replay(r *vkit.Run, v vkit.Violation) *vkit.Violation {
 	var in c17Input
-	if err := json.Unmarshal(v.Input, &in); err != nil {
+	if err := vkit.DecodeInput(v, &in); err != nil {
 		r.HarnessError("bad input: %v", err)
 	}
 	return vkit.ReplayOne(r, func() {
